@@ -99,6 +99,9 @@ static int encode_mem(struct instr *instrc, int m) {
     instrc->opd[m].index = instrc->opd[m].reg;
     instrc->opd[m].reg = swap;
   }
+  // rewrite an operand without base register first: the resulting base decides
+  // whether a SIB byte or a zero displacement byte is required
+  sib_no_base(instrc, &instrc->opd[m]);
   // if r/m value is a memory reference and is the spl register
   if ((instrc->opd[m].reg & VALUE_MASK) == spl &&
       instrc->opd[m].index == reg_none)
